@@ -37,6 +37,7 @@ ASSUMPTIONS = [
     "the user model's evaluate_log_likelihood is an arbitrary function (fresh symbolic value per call)",
     "NestedSampler.check_state / update_state (training, plotting, checkpointing) are stubs in these units",
     "tqdm replaced by a no-op progress bar",
+    "step_flow_pool: the x-space array handed to FlowProposal.convert_to_samples has its fields in the proposal's parameter order (model order or reversed), one point inside the prior box; the likelihood is filled in after the conversion, as populate does",
 ]
 OUTSIDE = [
     "that flow proposals only offer in-bounds candidates (C09)", "resumed runs (C12/C13)",
